@@ -1646,7 +1646,9 @@ class Evaluator:
                 if isinstance(st, ast.AnnAssign) and st.value is None: continue
                 val = s.ev(st.value, env, mod, depth)
                 if val is RAISE: return RAISE
-                for t in (st.targets if isinstance(st, ast.Assign) else [st.target]): s.assign(t, val, env, mod, depth)
+                for t in (st.targets if isinstance(st, ast.Assign) else [st.target]):
+                    s.assign(t, val, env, mod, depth)
+                    if isinstance(t, ast.Name): s._note_view(t.id, st.value, env, mod)
             elif isinstance(st, ast.AugAssign) and isinstance(st.target, ast.Subscript) and isinstance(st.op, (ast.Add, ast.Sub)) and s.array_store(st.target, s.ev(st.value, env, mod, depth) if isinstance(st.op, ast.Add) else s.negate_value(s.ev(st.value, env, mod, depth)), env, mod, depth, aug=True):
                 pass
             elif isinstance(st, ast.AugAssign):
@@ -2093,10 +2095,54 @@ class Evaluator:
                     else: idx.append(v)
         return t, idx
 
+    def _note_view(s, name, value, env, mod):
+        """x = y[...] / y.T / y.reshape(..) of an array-valued local y may be a numpy VIEW: remember it, so that a later store through x is
+        not silently lost (the array y is then no longer known)"""
+        v = value
+        while isinstance(v, (ast.Subscript, ast.Attribute)) or (isinstance(v, ast.Call) and isinstance(v.func, ast.Attribute) and v.func.attr in ('reshape', 'ravel', 'view', 'transpose', 'squeeze')):
+            v = v.func.value if isinstance(v, ast.Call) else v.value
+        views = env.setdefault('__views__', {})
+        views.pop(name, None)
+        if v is value or not isinstance(v, ast.Name) or v.id == name: return
+        try: cur = s.lookup(v.id, env, mod)
+        except Exception: return
+        if not _is_arraylike(cur): return
+        lows = None
+        if isinstance(value, ast.Subscript) and value.value is v:
+            # y[lo0:hi0, lo1:hi1]: element (i, j) of the view is element (lo0 + i, lo1 + j) of y
+            items = value.slice.elts if isinstance(value.slice, ast.Tuple) else [value.slice]
+            if all(isinstance(it_, ast.Slice) and it_.step is None for it_ in items):
+                lows = [s.ev(it_.lower, env, mod, 0) if it_.lower is not None else Poly.const(0) for it_ in items]
+                if not all(isinstance(l_, Poly) for l_ in lows): lows = None
+        views[name] = (v.id, lows)
+
+    def _view_of(s, name, env):
+        e = env
+        while e is not None:
+            vw = e.get('__views__', {}).get(name) if isinstance(e.get('__views__'), dict) else None
+            if vw is not None: return vw
+            if name in e: return None
+            e = e.get('__parent__')
+        return None
+
+    def _store_through_view(s, name, idx, env):
+        """(base name, translated indices) when `name` is a slice view whose element positions translate; the base array is forgotten when
+        they do not (the store cannot be attributed)"""
+        vw = s._view_of(name, env)
+        if vw is None: return None
+        base, lows = vw
+        if lows is not None and len(idx) <= len(lows) and all(isinstance(i_, Poly) for i_ in idx):
+            return base, [l_ + i_ for l_, i_ in zip(lows, idx)]
+        s.rebind(base, Opq('?', f'{base} is written through the view {name}'), env)
+        if s._build is not None: s._build['ok'] = False
+        return None
+
     def array_store(s, target, val, env, mod, depth, aug=False):
         """record  M[idx] (+)= val  on an array-valued local as a store record of its build term; False when this is not an array store"""
         root, idx = s._index_terms(target, env, mod, depth)
         if root is None: return False
+        tv = s._store_through_view(root.id, idx, env)
+        if tv is not None: root, idx = ast.Name(id=tv[0], ctx=ast.Load()), tv[1]
         try: cur = s.lookup(root.id, env, mod)
         except Exception: return False
         if not _is_arraylike(cur): return False
@@ -2134,6 +2180,14 @@ class Evaluator:
                     if isinstance(x, ast.Name) and x.id not in assigned: assigned.append(x.id)
         for nm in assigned:
             if nm in tnames: continue
+            vw_ = s._view_of(nm, env)
+            if vw_ is not None:
+                # the loop stores through a slice view: the stores belong to the array the view was taken from
+                if vw_[1] is not None: nm = vw_[0]
+                else:
+                    s.rebind(vw_[0], Opq('?', f'{vw_[0]} is written through the view {nm}'), env)
+                    if outer is not None: outer['ok'] = False
+                    return False
             try: cur = s.lookup(nm, env, mod)
             except Exception: cur = None
             if cur is not None and _is_arraylike(cur): arrays.append(nm)
